@@ -1244,3 +1244,109 @@ _dispatch_event_loop_drain_timers(dispatch_timer_heap_t dth, uint32_t count)
 		 */
 	} while (unlikely(dth[0].dth_dirty_bits));
 }
+
+#if DISPATCH_VERIF
+#pragma mark verification shim
+// Verification shim (guard: DISPATCH_VERIF): thin exported wrappers over the
+// static timer heap functions above, so that the interleaved double heap can be
+// enumerated exhaustively against a sorted-set model. Add-only; no behaviour of
+// the library depends on it.
+DISPATCH_EXPORT void *_dispatch_verif_heap_new(void);
+DISPATCH_EXPORT void _dispatch_verif_heap_free(void *h);
+DISPATCH_EXPORT void *_dispatch_verif_heap_timer_new(uint64_t target,
+		uint64_t deadline);
+DISPATCH_EXPORT void _dispatch_verif_heap_timer_set(void *t, uint64_t target,
+		uint64_t deadline);
+DISPATCH_EXPORT void _dispatch_verif_heap_insert(void *h, void *t);
+DISPATCH_EXPORT void _dispatch_verif_heap_remove(void *h, void *t);
+DISPATCH_EXPORT void _dispatch_verif_heap_update(void *h, void *t);
+DISPATCH_EXPORT void *_dispatch_verif_heap_min(void *h, unsigned which);
+DISPATCH_EXPORT uint32_t _dispatch_verif_heap_count(void *h);
+DISPATCH_EXPORT void *_dispatch_verif_heap_slot(void *h, uint32_t idx);
+DISPATCH_EXPORT uint32_t _dispatch_verif_heap_entry(void *t, unsigned which);
+DISPATCH_EXPORT uint64_t _dispatch_verif_heap_key(void *t, unsigned which);
+
+void *
+_dispatch_verif_heap_new(void)
+{
+	return _dispatch_calloc(1, sizeof(struct dispatch_timer_heap_s));
+}
+
+void
+_dispatch_verif_heap_free(void *h)
+{
+	dispatch_timer_heap_t dth = h;
+	while (dth->dth_segments) _dispatch_timer_heap_shrink(dth);
+	free(dth);
+}
+
+void *
+_dispatch_verif_heap_timer_new(uint64_t target, uint64_t deadline)
+{
+	dispatch_timer_source_refs_t dt;
+	dt = _dispatch_calloc(1, sizeof(struct dispatch_timer_source_refs_s));
+	dt->dt_timer.target = target;
+	dt->dt_timer.deadline = deadline;
+	dt->dt_heap_entry[DTH_TARGET_ID] = DTH_INVALID_ID;
+	dt->dt_heap_entry[DTH_DEADLINE_ID] = DTH_INVALID_ID;
+	return dt;
+}
+
+void
+_dispatch_verif_heap_timer_set(void *t, uint64_t target, uint64_t deadline)
+{
+	dispatch_timer_source_refs_t dt = t;
+	dt->dt_timer.target = target;
+	dt->dt_timer.deadline = deadline;
+}
+
+void
+_dispatch_verif_heap_insert(void *h, void *t)
+{
+	_dispatch_timer_heap_insert(h, t);
+}
+
+void
+_dispatch_verif_heap_remove(void *h, void *t)
+{
+	_dispatch_timer_heap_remove(h, t);
+}
+
+void
+_dispatch_verif_heap_update(void *h, void *t)
+{
+	_dispatch_timer_heap_update(h, t);
+}
+
+void *
+_dispatch_verif_heap_min(void *h, unsigned which)
+{
+	return ((dispatch_timer_heap_t)h)->dth_min[which];
+}
+
+uint32_t
+_dispatch_verif_heap_count(void *h)
+{
+	return ((dispatch_timer_heap_t)h)->dth_count / DTH_ID_COUNT;
+}
+
+void *
+_dispatch_verif_heap_slot(void *h, uint32_t idx)
+{
+	dispatch_timer_heap_t dth = h;
+	if (idx >= dth->dth_count) return NULL;
+	return *_dispatch_timer_heap_get_slot(dth, idx);
+}
+
+uint32_t
+_dispatch_verif_heap_entry(void *t, unsigned which)
+{
+	return ((dispatch_timer_source_refs_t)t)->dt_heap_entry[which];
+}
+
+uint64_t
+_dispatch_verif_heap_key(void *t, unsigned which)
+{
+	return ((dispatch_timer_source_refs_t)t)->dt_timer.heap_key[which];
+}
+#endif // DISPATCH_VERIF
